@@ -251,6 +251,9 @@ func (x *Exec) callContract(st *State, con *Contract, callee *ssa.Function, args
 		return "(and " + strings.Join(cs, " ") + ")"
 	}
 	for _, cl := range con.Ensures {
+		if cl.BoundedOnly {
+			continue // never proved, hence never assumed
+		}
 		if usesTrace(cl) {
 			// a clause about the callee's own ghost call trace says nothing a caller can use (and must not be evaluated
 			// over the caller's trace)
